@@ -36,7 +36,7 @@ let parse_ast (s : string) : block list =
 
 (* independent of model and grammar: the expected exit code of every returned test case is written in the document, on a line
    `[n]` between the test's own `$` line and the next test's (C06 / C07: "expected exit code ... exactly those written") *)
-let exit_codes_written (sep : n list -> bool) (lines : n list list) (res : string) : string option =
+let exit_codes_written (same_block : n list array -> int -> int -> bool) (lines : n list list) (res : string) : string option =
   if String.length res < 4 || String.sub res 0 3 <> "ok:" || res = "ok:-" then None else begin
     let tests = List.filter_map (fun t -> match split_on '^' t with
         | [_; _; _; code; ln; _] -> Some ((if code = "-" then None else Some (int_of_string code)), int_of_string ln)
@@ -65,11 +65,8 @@ let exit_codes_written (sep : n list -> bool) (lines : n list list) (res : strin
            for i = ln to min stop (Array.length arr) - 1 do if code_of arr.(i) = Some c then found := true done;
            let before = ref false in
            for i = min (ln - 2) (Array.length arr - 1) downto prev do
-             if i >= 0 && code_of arr.(i) = Some c then begin
-               let clean = ref true in
-               for j = i + 1 to ln - 2 do if sep arr.(j) then clean := false done;
-               if !clean then before := true
-             end done;
+             if i >= 0 && code_of arr.(i) = Some c && same_block arr i (ln - 1) then before := true
+           done;
            if !found || !before then go ln rest
            else Some (Printf.sprintf "the test case of line %d expects exit code %d, which is not written in its block" ln c)) in
     go 0 tests
@@ -86,7 +83,9 @@ let run_cram () = iter_lines (fun line ->
     note_distinct doc (List.length lines > 1); sample line;
     if m <> res then report "DIFF:cram" ("model=" ^ m) line;
     if res = "panic" then report "SPEC:C07" "parsing a Cram document panicked" line;
-    (match exit_codes_written (fun l -> match l with a :: _ when int_of_n a = 35 -> false (* a comment line is no part of the document *) | a :: b :: _ -> not (int_of_n a = 32 && int_of_n b = 32) | _ -> true) lines res with Some m -> report "SPEC:C07" m line | None -> ());
+    (* Cram: the same block = no line between the two that is neither indented nor a comment *)
+    let cram_sep l = (match l with a :: _ when int_of_n a = 35 -> false | a :: b :: _ -> not (int_of_n a = 32 && int_of_n b = 32) | _ -> true) in
+    (match exit_codes_written (fun arr i j -> let ok = ref true in for k = i + 1 to j - 1 do if cram_sep arr.(k) then ok := false done; !ok) lines res with Some m -> report "SPEC:C07" m line | None -> ());
     if ast <> "~" then begin
       let d = parse_ast ast in
       (* the document really is the rendering of the AST (modulo the line terminators the harness chose) *)
@@ -141,6 +140,7 @@ let parse_md_ast (s : string) : elem list * int option =
          | cfg :: comments :: rest0 ->
            let tl = text_of_hex (List.nth rest0 (List.length rest0 - 1)) in
            let rest = List.filteri (fun i _ -> i < List.length rest0 - 1) rest0 in
+           let cfg, hs = (match split_on 'h' cfg with [c; h] -> (c, text_of_hex h) | [c] -> (c, []) | _ -> failwith "scrut header") in
            let cfg = if cfg = "-" then None else Some (text_of_string cfg_table.(int_of_string cfg)) in
            let cmd = (match rest with
                | ["~"] -> None
@@ -151,7 +151,7 @@ let parse_md_ast (s : string) : elem list * int option =
                      if it.[0] = 'E' then BExp (text_of_hex v) else BCode (text_of_string v)) (split_on ',' items) in
                  Some ((List.hd cs, List.tl cs), items)
                | _ -> failwith "scrut cmd") in
-           EScrut (nat_of_int n, cfg, hl comments, cmd, tl)
+           EScrut (nat_of_int n, cfg, hs, hl comments, cmd, tl)
          | _ -> failwith "scrut")
       | _ -> failwith "elem") (split_on ';' s) in
     (d, !front)
@@ -182,7 +182,9 @@ let run_md () = iter_lines (fun line ->
     bump ("result:" ^ (if res = "err" then "err" else if res = "panic" then "panic" else "ok"));
     note_distinct doc (List.length lines > 1); sample line;
     if res = "panic" then report "SPEC:C06" "parsing a Markdown document panicked" line;
-    (match exit_codes_written (fun l -> match l with a :: b :: c :: _ -> int_of_n a = 96 && int_of_n b = 96 && int_of_n c = 96 | _ -> false) lines res with Some m -> report "SPEC:C06" m line | None -> ());
+    (* Markdown: the same block = both lines are code lines of one test block of the (lossless, C06_nothing_dropped) tokenizer model *)
+    let blocks = List.filter_map (function TTest (_, _, code, _) -> Some (List.map (fun (i, _) -> int_of_nat i) code) | _ -> None) (md_tokens lines) in
+    (match exit_codes_written (fun _ i j -> List.exists (fun b -> List.mem i b && List.mem j b) blocks) lines res with Some m -> report "SPEC:C06" m line | None -> ());
     let known_cfg c = Array.exists (fun x -> x = string_of_text c) cfg_table in
     let known_front ls = Array.exists (fun x -> List.map text_of_string x = ls) front_table in
     if soup then begin
@@ -236,7 +238,7 @@ let run_md () = iter_lines (fun line ->
                  | [] -> None
                  | e :: r -> let next = line + List.length (render_elem e) in if next <= k then go r next else Some (e, line) in go d 0) in
              (match cut with
-              | Some (EScrut (_, _, comments, Some _, _), start) when k >= start + 1 + List.length comments + 1 ->
+              | Some (EScrut (_, _, _, comments, Some _, _), start) when k >= start + 1 + List.length comments + 1 ->
                 if List.length got <> List.length want + 1 then
                   report "SPEC:C06" "the document ends inside a scrut block (after its `$` line): the block is neither reported nor read to the end -- its test is silently dropped" line
               | _ -> ())
